@@ -180,7 +180,8 @@ func (h *Handler) ServeHTTP(rw http.ResponseWriter, req *http.Request) {
 		return
 	}
 
-	if receivedConfig.Trafficshape == nil {
+	// The document "null" decodes without an error and leaves no request at all.
+	if receivedConfig == nil || receivedConfig.Trafficshape == nil {
 		http.Error(rw, "Error: trafficshape property not found", 400)
 		return
 	}
